@@ -36,7 +36,8 @@ COMPONENTS = {
         "src/hashgraph (Hashgraph, Event, Block, Frame, Root, RoundInfo, caches, InmemStore, BadgerStore over real Badger v1.6.0 on tmpfs)",
         "src/node core.go, node_rpc.go (all four RPC handlers), node.go gossip/pull/push/sync/monologue/checkSuspend/Suspend/Shutdown/fastForward/join/Leave",
         "src/peers, src/common, src/crypto/keys (verification real, signing RFC 6979 through the H1 seam)",
-        "src/net command structs + JSON encoding of every request/response",
+        "src/net command structs + JSON encoding of every request/response; in wire mode (40 % of the C15 cluster runs, 15 % of C01) the real NetworkTransport (genericRPC, connection pool, Listen/handleConn/handleCommand) over in-memory connections",
+        "src/babble Babble.initStore (store kind, backup / bootstrap decision, maintenance mode) opens every simulated node's store",
         "src/proxy/inmem.InmemProxy in front of half of the simulated applications (cluster engines); src/proxy/socket app+babble sides and net/rpc/jsonrpc over in-memory pipes (proxy engine, C20); NetworkTransport.handleConn for raw bytes (C08)",
     ],
     "stub": [
@@ -513,7 +514,7 @@ EXPECTED_PROBES = {
     "C12": ["ff-refused", "ff-accepted", "ff-attempt-on-previously-adopted-pair", "ff-attempt:sigs-below-threshold-plus-strangers"],
     "C13": ["fastforward-ok", "re-fast-forward", "c13-ff-history-checked"],
     "C14": ["ff-attempt:forged-validator-set", "ff-forged-set-offered-again"],
-    "C15": ["c15-wire-roundtrip", "c15-block-json", "c15-frame-json", "c15-db-events-reloaded", "c15-frame-handover"],
+    "C15": ["c15-wire-roundtrip", "c15-block-json", "c15-frame-json", "c15-db-events-reloaded", "c15-frame-handover", "wire-rpc"],
     "C16": ["c16-ops-applied", "c16-reopens", "c16-restart-after-kill", "c16-reset-checked"],
     "C17": ["c17-runtime-suspend", "auto-suspended", "c17-suspended-sync-checked", "c17-leave-then-restart", "c17-maintenance-session-opened", "c17-maintenance-session-closed"],
     "C18": ["c18-block-checked", "c18-liar-among-famous-witnesses"],
